@@ -138,6 +138,30 @@ def check_parser(P, R):
             elif isinstance(a, ast.Call) and dotted(a.func) == 'int' and isinstance(b, ast.Call) and dotted(b.func) == 'min':
                 inner = [src(x).replace(' ', '') for x in b.args]
                 forms['closed'] = maxlen in inner and f'int({ename})+1' in inner
+    # ... each under the spelling it belongs to: what is known about the two halves of the spec where a form is computed must not contradict it
+    def _truth(atoms, name):
+        for (e_, holds_, _t) in atoms:
+            if isinstance(e_, ast.Name) and e_.id == name:
+                return holds_
+            cp_ = compare_parts(e_)
+            if cp_ and isinstance(cp_[0], ast.Name) and cp_[0].id == name and isinstance(cp_[2], ast.Constant) and cp_[2].value == '' and cp_[1] in (ast.Eq, ast.NotEq):
+                return holds_ != (cp_[1] is ast.Eq)
+        return None
+    for st in walk_shallow(f.node):
+        if isinstance(st, ast.Assign) and isinstance(st.value, ast.Tuple) and len(st.value.elts) == 2:
+            a, b = st.value.elts
+            sn_ = g.node_of_stmt(st)
+            if not sn_:
+                continue
+            atoms = T.guard_atoms(f, sn_[0])
+            if isinstance(a, ast.Call) and dotted(a.func) == 'max' and src(b) == maxlen and _truth(atoms, sname) is True:
+                R.ob('C17.b', f, st, False, text=f'{short(st)}: the suffix form, where a first position was given', detail=
+                     f'the suffix arithmetic `{short(st.value)}` is applied to a spec that has a first byte position: `bytes=100-200` is answered with the last 200 bytes',
+                     why='the first requested range clipped to the file as RFC 7233 defines', key_extra='form-guard-suffix')
+            elif isinstance(a, ast.Call) and dotted(a.func) == 'int' and src(b) == maxlen and _truth(atoms, ename) is True:
+                R.ob('C17.b', f, st, False, text=f'{short(st)}: the open form, where a last position was given', detail=
+                     f'the open-ended arithmetic `{short(st.value)}` is applied to a spec that has a last byte position: `bytes=100-200` is answered up to the end of the file',
+                     why='the first requested range clipped to the file as RFC 7233 defines', key_extra='form-guard-open')
     for k, v in forms.items():
         R.ob('C17.b', f, f.node, v, text=f'{k} range form clipped to the file', detail='' if v else
              {'suffix': 'suffix form must be (max(0, maxlen - int(end)), maxlen)',
@@ -171,6 +195,13 @@ def check_stream(P, R):
     R.require(len(loops) == 1, f'{f.fq}: expected one loop')
     loop = loops[0]
     counter = T.counter_of_while(loop)
+    if counter is not None and counter != count:
+        # the count may be kept in a local that starts as a copy of the parameter (which is then left alone)
+        hn_ = T.loop_head(g, loop)
+        ds_ = [d for d in rd.at(hn_, counter) if d.kind != 'aug']
+        if ds_ and all(d.kind == 'assign' and isinstance(d.value, ast.Name) and d.value.id == count and not T._inside(d.stmt, loop.body) for d in ds_) \
+                and not any(d.name == count for ds2 in rd.gen.values() for d in ds2 if d.kind != 'param'):
+            count = counter
     okc = counter == count
     es = T.early_stop_bound(loop) if counter is None else None
     if es is not None:
@@ -439,6 +470,13 @@ def check_static_file(P, R):
         tst = enclosing(c, ast.If)
         if tst is not None and isinstance(a[0], ast.Name) and isinstance(tst.test, ast.Name) and tst.test.id == a[0].id:
             okb = True
+        for (e_, holds_, _t) in ([] if okb else T.guard_atoms(f, sn)):
+            # ... or only when the request is known not to be a HEAD (directly or through a flag)
+            cp_ = compare_parts(e_)
+            if cp_ and any(is_const(x_, 'HEAD') for x_ in (cp_[0], cp_[2])) and ((cp_[1] is ast.Eq and not holds_) or (cp_[1] is ast.NotEq and holds_)):
+                okb = True
+            if isinstance(e_, ast.Name) and isinstance(a[0], ast.Name) and e_.id == a[0].id and holds_:
+                okb = True
         R.ob('C17.e', f, c, okb, text='range iterator only when a body exists', detail='' if okb else
              'the range iterator wraps the body even for HEAD')
     # d: full Content-Length = st_size of stat(filename)
@@ -519,11 +557,16 @@ def check_static_file(P, R):
     R.ob('C17.e', cast_, sd_[0] if sd_ else cast_.node, bool(sd_), text='_cast only fills in a missing Content-Length (setdefault)', detail='' if sd_ else
          '_cast does not default the Content-Length', nontrivial=False)
     # HEAD -> empty body
-    heads = [n for n in walk_shallow(f.node) if isinstance(n, ast.IfExp) and any(
-        isinstance(x, ast.Constant) and x.value == 'HEAD' for x in ast.walk(n.test))]
+    heads = []
+    for n in walk_shallow(f.node):
+        if isinstance(n, ast.IfExp):
+            ns_ = g.node_of_stmt(n)
+            tx_ = T.expand(f, n.test, ns_[0]) if ns_ else n.test          # the test may be a flag computed from the method
+            if any(isinstance(x, ast.Constant) and x.value == 'HEAD' for x in ast.walk(tx_)):
+                heads.append((n, tx_))
     ok = False
-    for h in heads:
-        cp = compare_parts(h.test)
+    for (h, tx_) in heads:
+        cp = compare_parts(tx_)
         if cp and cp[1] is ast.Eq and isinstance(h.body, ast.Constant) and not h.body.value:
             ok = any(isinstance(x, ast.Call) and dotted(x.func) == 'open' for x in ast.walk(h.orelse))
         elif cp and cp[1] is ast.NotEq and isinstance(h.orelse, ast.Constant) and not h.orelse.value:
@@ -538,7 +581,7 @@ def check_static_file(P, R):
                         return True
             return False
         ok = bool(sinks) and all(not_head(g.node_of_stmt(s_)[0]) for s_ in sinks)
-    R.ob('C17.e', f, heads[0] if heads else f.node, ok, text='HEAD -> empty body', detail='' if ok else
+    R.ob('C17.e', f, heads[0][0] if heads else f.node, ok, text='HEAD -> empty body', detail='' if ok else
          'HEAD requests are given the file body')
 
 
